@@ -73,6 +73,8 @@ def layout(n, kind, order, split):
     two = split is not None
     if two:
         emit(0, 'import "other.m"\n')
+        # the uses of both files start on the same line: references of different files share (line, column)
+        emit(0, '\n' * (n - 1))
     # all defs live in the last file (so cross-file lookups are exercised when split)
     dfile = 1 if two else 0
     for i in range(n):
